@@ -95,3 +95,18 @@ _P["C03"] = {
     "trusted_base": _ENC_TRUSTED + ["Spec/Walk.v tables (see C02)"],
     "assumptions": ["the expected value is the model's built value (its fields come from the recipe's arguments by position)"],
 }
+
+_PKT_TRUSTED = ["Model/Proto.v decoders hand-written from package protocol (exact-capacity buffers); encoders via Model/Wire.v layouts",
+                "IGMP, DHCP and LLDP are not modelled in Coq: for them the run checks the property's oracle on the implementation only (no theorem)"]
+_P["C08"] = {
+    "explanation": "Theorems C08_* (Properties/C08.v): the modelled packet decoders (Ethernet+VLAN, ARP, IPv4, IPv6 + extension headers, ICMP, UDP, TCP) "
+                   "return a value or an error on every byte string - no panic, no fuel exhaustion; correspondence on truncations at every offset, "
+                   "boundary bytes and mutations, each decode in a watchdog subprocess (time and heap limits).",
+    "trusted_base": _PKT_TRUSTED, "assumptions": ["time/memory proportionality is measured by the 3 s / 1 GiB limits, not proved"],
+    "harness_timeout": {"quick": 900, "thorough": 3000},
+}
+_P["C09"] = {
+    "explanation": "Theorems C09_* (Properties/C09.v): bit-lane lemmas for every packed group for all values; decode of the encoding; "
+                   "correspondence: frames through encode/decode/encode with the demultiplexing decided from the bytes by an independent function, lanes exhaustively.",
+    "trusted_base": _PKT_TRUSTED, "assumptions": [],
+}
